@@ -277,6 +277,7 @@ retry_fetch_lv:
      * root = lv; advance key; goto retry_find_border;
      */
     traverse_key_view.remove_prefix(sizeof(key_slice_type));
+    YAKUSHIMA_VERIF_HOOK(YAKUSHIMA_VERIF_LAYER, nullptr);
     goto retry_find_border; // NOLINT
 }
 
